@@ -562,7 +562,7 @@ Proof.
         try (destruct qi as [|pi]; [apply simS_panic|]; cbn [prevp];
              destruct (nth_error q pi) as [[]|]; try apply simS_SOut; try (apply simS_ret, RQ_miss);
              rewrite <- Hkeep;
-             eapply simS_bind; [apply keeps_with_frame; [exact ss_push|apply (ks_eval_filter_cnf r Hks)]|apply filter_cond; exact Hg|];
+             eapply simS_bind; [apply keeps_node, keeps_with_frame; [exact ss_push|apply (ks_eval_filter_cnf r Hks)]|apply simS_node, filter_cond; exact Hg|];
              intros st st' <-; destruct st; try (apply simS_ret, RQ_nil); apply Hnext; [exact Hn|exact Hg]).
       * (* a list: every element is a candidate *)
         eapply (simS_concatMapM (fun a b => a = b /\ G b)).
